@@ -272,8 +272,8 @@ def run(ctx):
     n_par = 0
     for i in range(1, nr.argc + 1):
         ty = nr.locals[i]["ty"]
-        if ty in ("R", "W"):
-            continue
+        if ty in ("R", "W") or i == FM.src or i in FM.wr:
+            continue        # the socket reader and the response writer (type parameters): their use is C03's / C06's subject
         n_par += 1
         stored_everywhere = bool(oks)
         changed = []
